@@ -6,6 +6,8 @@ CONSTANTS
   Entries <- MCEntries3
   Random <- MCRandom3
   Seedable <- MCSeed3
+  Backends <- MCBackends
+  InitBackend = "core"
   Objs <- MCObjs
   ObjSeed <- MCObjSeed
   ObjEntries <- MCSeedRand
